@@ -7,7 +7,7 @@ only = [a for a in sys.argv[1:] if not a.startswith("/")]
 for a in sys.argv[1:]:
     if a.startswith("/"):
         src = a
-for pf in sorted(glob.glob(os.path.join(src, "C*", "out", "[RSTUV]*.patch.diff"))):
+for pf in sorted(glob.glob(os.path.join(src, "C*", "out", "[RSTUVW]*.patch.diff"))):
     prop = os.path.basename(os.path.dirname(os.path.dirname(pf)))
     which = os.path.basename(pf).split(".")[0]
     sid = f"{prop}-{which}"
